@@ -20,11 +20,11 @@ mkdir -p /verif/seeded/$name && cp $src/patch.diff $src/demo_test.go $src/meta.j
 python3 - "$name" "$prop" <<'PY'
 import json,sys,re
 name,prop=sys.argv[1:3]
-chk=open('/tmp/seed_check.txt').read()
+chk=open('/tmp/seed_check.txt',errors='replace').read()
 viol=[l for l in chk.split('\n') if l.startswith('VIOLATION')]
 res={"checked_property":prop,
- "demo_on_unchanged_tree":"pass" if 'ok' in open('/tmp/seed_clean.txt').read() else "FAIL",
- "demo_with_change":"fail" if 'FAIL' in open('/tmp/seed_mut.txt').read() else "PASS(!)",
+ "demo_on_unchanged_tree":"pass" if 'ok' in open('/tmp/seed_clean.txt',errors='replace').read() else "FAIL",
+ "demo_with_change":"fail" if 'FAIL' in open('/tmp/seed_mut.txt',errors='replace').read() else "PASS(!)",
  "check_detects":len(viol)>0,
  "violations_reported":len(viol),
  "first_violations":[re.sub(r' replay=\S+','',v)[:200] for v in viol[:3]],
